@@ -83,14 +83,57 @@ class Run:
         }
         self.last_outcome = None
         self.last_model = None
+        self.cwd0 = os.getcwd()
+        self._pre = self._prev = None
         for m in sc.get('init', []):
             self.sb.apply_mutation(m)
 
     def close(self):
+        try:
+            os.chdir(self.cwd0)
+        except OSError:
+            os.chdir('/')
         self.sb.close()
 
     def probe(self, name, n=1):
         self.stats['probes'][name] = self.stats['probes'].get(name, 0) + n
+
+    # ------------------------------------------------------------------
+    def program_targets(self):
+        if getattr(self, '_targets', None) is None:
+            from .shrink import all_bodies
+            t = set()
+            for body in all_bodies(self.sc):
+                for st in body:
+                    if st[0] == 'bf':
+                        t.add(self.sb.p(st[1]))
+            self._targets = t
+        return self._targets
+
+    def foreign_hook(self, pre, prev):
+        """O-foreign-live: at every statement of the build every foreign
+        regular file is physically present and unchanged (C03)."""
+        sb = self.sb
+        managed = {sb.cache} | self.program_targets()
+        if prev is not None:
+            managed |= set(prev.outputs)
+        watch = [(p, n[3], n[2], len(n[1])) for p, n in sorted(pre.items())
+                 if n[0] == 'f' and p not in managed]
+
+        def hook(it, fr, st):
+            for p, ino, mtime, size in watch:
+                try:
+                    s_ = os.stat(p)
+                except OSError:
+                    it.viol.append(('C03', 'foreign-live-missing',
+                                    sb.rel(p)))
+                    return
+                if s_.st_ino != ino or s_.st_mtime_ns != mtime or \
+                        s_.st_size != size:
+                    it.viol.append(('C03', 'foreign-live-changed',
+                                    sb.rel(p)))
+                    return
+        return hook if watch else None
 
     # ------------------------------------------------------------------
     def prev_record(self, snap):
@@ -122,6 +165,11 @@ class Run:
     def step(self, i, step):
         op = step['op']
         try:
+            os.getcwd()
+        except OSError:
+            # the working directory was deleted by an earlier step
+            os.chdir(self.sb.w)
+        try:
             if op == 'mutate':
                 self.sb.clock.advance(step.get('tick', 1))
                 for m in step['muts']:
@@ -131,6 +179,13 @@ class Run:
                 self.build_step(i, step)
             elif op == 'clean':
                 self.clean_step(i, step)
+            elif op == 'chdir':
+                d = self.sb.p(step['rel'])
+                if os.path.isdir(d):
+                    os.chdir(d)
+                self.log.append(['chdir', i])
+            elif op == 'refuse':
+                self.refuse_step(i, step)
             else:
                 raise HarnessError('unknown step %r' % (op,))
         except Violation as v:
@@ -150,6 +205,8 @@ class Run:
         it = Interp(self.sc, sb, 'real', versions, crash_at=crash_at,
                     file_comparison=self.fb.FileComparison, sched=sched)
         it.stmt_hook = self.opts.get('stmt_hook')
+        if self.cfg.get('foreign_live') and self._pre is not None:
+            it.stmt_hook = self.foreign_hook(self._pre, self._prev)
         body = self.sc['roots'][step.get('root', 0)]
         out = Outcome()
 
@@ -223,6 +280,7 @@ class Run:
             else:
                 inj = fault
         self.stats['builds'] += 1
+        self._pre, self._prev = pre, prev
         real = self.real_build(step, crash_at=crash_at, fault=inj,
                                sched=self.opts.get('sched'))
         post = sb.snapshot()
@@ -266,7 +324,17 @@ class Run:
         for k, c in mb.causes.items():
             c = c.split(' ')[0] if isinstance(c, str) else str(c)
             self.stats['causes'][c] = self.stats['causes'].get(c, 0) + 1
-        self.compare_build(i, ctx)
+        try:
+            self.compare_build(i, ctx)
+        except Violation as v:
+            if prev is not None and 'C01' not in v.props and \
+                    self.differs_from_scratch(step, ctx):
+                # the implementation itself, run without its cache on the
+                # same pre-state, behaves differently: cache transparency
+                # (C01) is violated by its own statement
+                v.props.append('C01')
+                v.detail['differs_from_scratch_run'] = True
+            raise
         if model.kind == 'ok':
             self.stats['commits'] += 1
             T, rec = commit(mb)
@@ -275,11 +343,49 @@ class Run:
         else:
             self.stats['rollbacks'] += 1
 
+    def differs_from_scratch(self, step, ctx):
+        """Differential oracle in the words of C01: rerun the same build on
+        the same pre-state after deleting the previous build's outputs, the
+        cache file and the emptied created directories, and compare value,
+        exception type and final tree (paths, types, bytes)."""
+        sb = self.sb
+        pre, prev, real = ctx['pre'], ctx['prev'], ctx['real']
+        saved_clock, saved_tmpc = sb.clock.now, sb.tmp_counter
+        try:
+            sb.restore(pre)
+            for p in prev.outputs:
+                if os.path.isfile(p):
+                    os.remove(p)
+            if os.path.isfile(sb.cache):
+                os.remove(sb.cache)
+            for d in sorted(prev.created_dirs, key=lambda d: -len(d)):
+                try:
+                    os.rmdir(d)
+                except OSError:
+                    pass
+            scratch = self.real_build(step)
+            post2 = sb.snapshot()
+        except Exception:
+            return False
+        finally:
+            sb.clock.now, sb.tmp_counter = saved_clock, saved_tmpc
+
+        def shape(snap):
+            return {p: (n[0], n[1] if n[0] == 'f' and p != sb.cache else None)
+                    for p, n in snap.items()}
+        if (scratch.kind, scratch.exc) != (real.kind, real.exc):
+            return True
+        if scratch.kind == 'ok' and scratch.value != real.value:
+            return True
+        return shape(post2) != shape(ctx['post'])
+
     # ------------------------------------------------------------------
     def props_ctx(self, ctx, base):
         """Attribute a violation to properties using the step context."""
         props = list(base)
         tags = ctx['step'].get('tags', [])
+        if props in (['C04'], ['C03']):
+            tags = [t for t in tags if t == 'C14']
         for t in tags:
             if t not in props:
                 props.append(t)
@@ -325,6 +431,18 @@ class Run:
                          'real_next': robs[n:n + 1], 'model_next':
                          mobs[n:n + 1], 'real_exc': real.exc,
                          'model_exc': model.exc})
+        # (b') outputs served from the cache are not rewritten (same inode)
+        pre, post = ctx['pre'], ctx['post']
+        if real.kind == 'ok':
+            rset = set(real.order)
+            for k in model.mb.served_outputs:
+                inv = 'f:' + sb.rel(k)
+                a, b = pre.get(k), post.get(k)
+                if inv in rset or a is None or b is None:
+                    continue
+                if a[0] == 'f' and b[0] == 'f' and a[3] != b[3]:
+                    raise V(['C05'], 'O-rewrite', 'served-output-rewritten',
+                            {'path': sb.rel(k)})
         # (c) outcome of the API call
         if real.kind != model.kind or real.exc != model.exc:
             raise V(['C01'], 'O-ret', 'outcome',
@@ -547,6 +665,10 @@ class Run:
             if kind == 'crash':
                 plan = [{'kind': 'crash', 'at': k} for k in ks]
             else:
+                only = sc.get('only_calls')
+                if only:
+                    ks = [k for k in range(n)
+                          if first.mut_log[k][1] in only]
                 errnos = sc.get('errnos', ['ENOSPC'])
                 rot = sc.get('seed', 0)
                 plan = [{'kind': 'oserror', 'index': k,
@@ -593,6 +715,156 @@ class Run:
                 sigs.append([o.kind, o.exc, digest(o.value),
                              list(o.order), o.tree_sig])
         return sigs
+
+    # ------------------------------------------------------------------
+    def refuse_step(self, i, step):
+        """C15: a call that must be refused, with no side effect at all."""
+        import gzip as _gz
+        import json as _json
+        sb = self.sb
+        how, arg = step['how'], step.get('arg', 0)
+        sb.clock.advance(1)
+        state = self.save_state()
+        valid = state['snap'].get(sb.cache)
+        has_cache = valid is not None and valid[0] == 'f'
+        needs_cache = how.startswith(('trunc', 'flip', 'gz-', 'not-gzip',
+                                      'wrong-name', 'clean-'))
+        if needs_cache and not has_cache:
+            self.log.append(['refuse', i, how, 'skipped'])
+            return
+        data = valid[1] if has_cache else b''
+        new = None
+        if how.startswith('trunc') or how == 'clean-trunc':
+            n = {'trunc0': 0, 'trunc1': 1, 'trunc10': 10,
+                 'truncmid': len(data) // 2, 'trunclast': len(data) - 1,
+                 'clean-trunc': len(data) // 2}[how]
+            new = data[:max(0, min(n, len(data) - 1))]
+        elif how.startswith('flip'):
+            if how == 'flip-header':
+                pos = arg % 3              # magic / method bytes
+            elif how == 'flip-trailer':
+                pos = len(data) - 1 - arg % 8
+            else:
+                pos = 10 + arg % max(1, len(data) - 18)
+            b = bytearray(data)
+            b[pos] ^= 1 << (arg % 8)
+            new = bytes(b)
+        elif how == 'gz-nonjson':
+            new = _gz.compress(b'this is not json')
+        elif how == 'gz-list':
+            new = _gz.compress(b'[1, 2, 3]')
+        elif how in ('gz-other-software', 'gz-newer-version',
+                     'gz-missing-keys'):
+            doc = _json.loads(_gz.decompress(data).decode())
+            if how == 'gz-other-software':
+                doc['software'] = 'other_tool'
+            elif how == 'gz-newer-version':
+                doc['cacheFileVersion'] = 2
+            else:
+                doc = {'software': 'file_builder', 'cacheFileVersion': None}
+            new = _gz.compress(_json.dumps(doc).encode())
+        elif how in ('not-gzip', 'clean-not-gzip'):
+            new = b'{"software": "file_builder"}'
+        if new is not None:
+            sb.apply_mutation(['cachebytes', new])
+        if how == 'dir-at-cache':
+            if has_cache:
+                os.remove(sb.cache)
+            if not os.path.isdir(os.path.dirname(sb.cache)):
+                self.load_state(state)
+                self.log.append(['refuse', i, how, 'skipped'])
+                return
+            os.mkdir(sb.cache)
+        snap = sb.snapshot()
+        entered = []
+
+        def root(builder):
+            entered.append(1)
+            return 0
+
+        name = self.cfg.get('build_name', 'B')
+        cache = sb.cache
+        versions = {}
+        func = root
+        is_clean = how.startswith('clean-')
+        expect = None
+        if how == 'wrong-name':
+            name = 'another build'
+            expect = 'RuntimeError'
+        elif how == 'name-not-str':
+            name = 7
+            expect = 'TypeError'
+        elif how == 'func-not-callable':
+            func = 'not callable'
+            expect = 'TypeError'
+        elif how == 'versions-not-dict':
+            versions = [1]
+            expect = 'TypeError'
+        elif how == 'versions-not-json':
+            versions = {'f': {1, 2}}
+            expect = 'TypeError'
+        elif how == 'clean-wrong-name':
+            name = 'another build'
+            expect = 'RuntimeError'
+        elif how == 'clean-name-not-str':
+            name = 7
+            expect = 'TypeError'
+        elif how == 'cache-path-bad-type':
+            cache = 12345
+            expect = 'TypeError'
+        elif how == 'dir-at-cache':
+            expect = 'IsADirectoryError'
+        elif how.startswith(('trunc', 'gz-', 'not-gzip', 'clean-trunc',
+                             'clean-not-gzip')):
+            expect = 'RuntimeError' if how != 'gz-missing-keys' else None
+        self.sim.reset(sandbox=sb, listdir_seed=self.cfg.get('listdir_seed'))
+        self.sim.phase = 'clean'
+        exc = None
+        try:
+            if is_clean:
+                self.fb.FileBuilder.clean(cache, name)
+            else:
+                self.fb.FileBuilder.build_versioned(
+                    cache, name, versions, func)
+        except Exception as e:
+            exc = e
+        finally:
+            self.sim.phase = 'idle'
+        post = sb.snapshot()
+        tmp_left = sb.tmp_entries()
+        self.stats['refused'] += 1
+        key = 'refuse:' + how
+        self.stats['faults'][key] = self.stats['faults'].get(key, 0) + 1
+        self.log.append(['refuse', i, how, type(exc).__name__])
+        ctx = {'step': step}
+        try:
+            if exc is None:
+                if how.startswith('flip'):
+                    # e.g. a flipped bit in a header field gzip ignores: the
+                    # file is still a valid cache; nothing to check
+                    self.probe('corruption-not-detectable')
+                    return
+                raise Violation(['C15'], 'O-untouched', 'not-refused',
+                                {'how': how}, i)
+            if expect is not None and type(exc).__name__ != expect and \
+                    not how.startswith('flip'):
+                raise Violation(['C15'], 'O-untouched', 'wrong-exception',
+                                {'how': how, 'got': type(exc).__name__,
+                                 'expected': expect}, i)
+            if entered:
+                raise Violation(['C15'], 'O-untouched', 'function-called',
+                                {'how': how}, i)
+            if tmp_left:
+                raise Violation(['C15'], 'O-untouched', 'temp-leak',
+                                {'how': how, 'entries': tmp_left}, i)
+            if snap != post:
+                diff = [sb.rel(p) for p in sorted(set(snap) | set(post))
+                        if snap.get(p) != post.get(p)]
+                raise Violation(['C15'], 'O-untouched', 'tree-changed',
+                                {'how': how, 'paths': diff[:6]}, i)
+        finally:
+            self.load_state(state)
+        del ctx
 
     # ------------------------------------------------------------------
     def clean_step(self, i, step):
